@@ -1,5 +1,6 @@
 import H3.Model.Varint
 import H3.Gen.Consts
+import H3.Gen.Settings
 /-! Model of `Frame::<PayloadLen>::decode` (`h3/src/proto/frame.rs`) on a contiguous view of the
     buffered bytes (the `Cursor` over the chunk list reads through chunk boundaries; that it
     does is part of the correspondence run, which cuts inputs at every offset).
@@ -9,7 +10,7 @@ namespace H3.Frame
 open H3.Varint H3.Gen.Consts
 
 inductive SettingsErr where
-  | malformed | invalidId (id : Nat) | repeated (id : Nat) | exceeded
+  | malformed | invalidId (id : Nat) | repeated (id : Nat) | exceeded | invalidValue (id v : Nat)
 deriving Repr, DecidableEq
 
 /-- `SettingId::is_forbidden` -/
@@ -21,6 +22,10 @@ def settingSupported (id : Nat) : Bool :=
   id == SETTING_QPACK_MAX_BLOCKED_STREAMS || id == SETTING_ENABLE_CONNECT_PROTOCOL ||
   id == SETTING_ENABLE_WEBTRANSPORT || id == SETTING_WEBTRANSPORT_MAX_SESSIONS ||
   id == SETTING_H3_DATAGRAM
+
+/-- `SettingId::is_boolean`: the list is read from the source by the translator (`[]` = the source has no such test,
+    the shape before the repair of D-13b) -/
+def settingBoolean (id : Nat) : Bool := H3.Gen.Settings.booleanIds.contains id
 
 /-- `Settings::insert` on the entry list (capacity `SETTINGS_LEN = 8`). -/
 def settingsInsert (es : List (Nat × Nat)) (id v : Nat) : Except SettingsErr (List (Nat × Nat)) :=
@@ -41,6 +46,7 @@ def settingsDecodeAux : Nat → Bytes → List (Nat × Nat) → Except SettingsE
         | .ok v r2 =>
           if settingForbidden id then .error (.invalidId id)
           else if settingSupported id then
+            if settingBoolean id && decide (1 < v) then .error (.invalidValue id v) else
             match settingsInsert es id v with
             | .error e => .error e
             | .ok es' => settingsDecodeAux fuel r2 es'
